@@ -169,6 +169,11 @@ pub struct PNode {
     pub raw: Raw32,
 }
 
+/// The volume label the formatter writes (boot sector and first root slot). It is a valid 8.3
+/// name from the pool the histories draw their names from, so that files, directories and
+/// lookups of the same name as the label occur.
+pub const LABEL_NAME: &[u8; 11] = b"LOG        ";
+
 #[derive(Clone, Debug)]
 pub struct PVol {
     pub layout: Layout,
@@ -952,7 +957,7 @@ pub fn mkfs(spec: &DiskSpec) -> (Image, Vec<PVol>) {
         let mut root_slots = v.root.clone();
         if g.label {
             let mut e = [0u8; 32];
-            e[0..11].copy_from_slice(b"VERIF LABEL");
+            e[0..11].copy_from_slice(LABEL_NAME);
             e[11] = 0x08;
             e[22..24].copy_from_slice(&0x6000u16.to_le_bytes());
             e[24..26].copy_from_slice(&0x2A21u16.to_le_bytes());
@@ -1065,7 +1070,7 @@ pub fn mkfs(spec: &DiskSpec) -> (Image, Vec<PVol>) {
         // boot sector(s)
         // without a label the boot-sector field is blank, which makes the crate look for a
         // label entry in the root directory instead
-        let label: [u8; 11] = if g.label { *b"VERIF LABEL" } else { *b"           " };
+        let label: [u8; 11] = if g.label { *LABEL_NAME } else { *b"           " };
         let bs = boot_sector(g, &lay, &label);
         img.wr(lay.part_start, &bs);
         if lay.fat32 {
